@@ -258,6 +258,75 @@ fn inbound_after_prefix_case(prefix: usize, total: usize, sink: &mut Sink<'_>) {
     }
 }
 
+/// Inbound, sustained pipelining: `count` frames of `size` bytes each arrive in pieces of `piece`
+/// bytes (0: all at once), so that most transport reads end in the middle of a frame; the receiver
+/// takes messages off as fast as they become complete.  Every frame is far below the limit, so every
+/// one must be delivered and the buffer must stay bounded although the stream as a whole is several
+/// times the limit.
+fn inbound_pipelined_case(size: usize, count: usize, piece: usize, sink: &mut Sink<'_>) {
+    let case = json!({"direction": "in-pipelined", "frame_bytes": size, "frames": count, "piece_bytes": piece});
+    let f = frame(size, true);
+    let want = serde_json::from_slice::<Value>(&f[..size - 1]).unwrap().to_string();
+    let mut stream = Vec::with_capacity(size * count);
+    for _ in 0..count {
+        stream.extend_from_slice(&f);
+    }
+    let wire = Wire::new(0, None);
+    let mut conn: Conn = wire.connection();
+    let mut task = Task::new();
+    let mut sent = 0usize;
+    let mut peak = 0usize;
+    let mut delivered = 0usize;
+    let step = if piece == 0 { stream.len() } else { piece };
+    'frames: while delivered < count {
+        let r = {
+            let mut fut = std::pin::pin!(conn.receive_call::<Value>());
+            loop {
+                match task.poll(fut.as_mut()) {
+                    Poll::Ready(r) => break r.map(|c| c.method().to_string()),
+                    Poll::Pending => {
+                        if task.woken() {
+                            continue;
+                        }
+                        if sent < stream.len() {
+                            let end = (sent + step).min(stream.len());
+                            wire.arrive(&stream[sent..end]);
+                            sent = end;
+                        } else {
+                            sink.fail("limits:pipelined-frame-never-delivered", format!("{count} frames of {size} bytes in pieces of {piece}: frame #{delivered} never arrives although the whole stream was sent"), case);
+                            return;
+                        }
+                    }
+                }
+            }
+        };
+        peak = peak.max(conn.read().verif_buffer_range().1);
+        match r {
+            Ok(got) if got == want => delivered += 1,
+            Ok(got) => {
+                sink.fail("limits:accepted-bytes-differ", format!("pipelined frame #{delivered}: got {got}"), case);
+                return;
+            }
+            Err(zlink_core::Error::BufferOverflow) => {
+                sink.fail("limits:small-frame-refused-in-a-pipelined-stream", format!("{count} frames of {size} bytes each (limit {LIMIT}) arriving in pieces of {piece} bytes: frame #{delivered} (stream offset {}) was refused with BufferOverflow; receive buffer at {peak} bytes", delivered * size), case);
+                break 'frames;
+            }
+            Err(e) => {
+                sink.fail("limits:small-frame-refused-in-a-pipelined-stream", format!("frame #{delivered}: {e:?}"), case);
+                return;
+            }
+        }
+        if peak > LIMIT + STEP {
+            sink.fail("limits:receive-buffer-grew-beyond-limit", format!("{count} pipelined frames of {size} bytes: receive buffer reached {peak} bytes (limit {LIMIT})"), case);
+            return;
+        }
+    }
+    if delivered == count {
+        sink.steps(count as u64);
+        sink.pass(H64::new().u(size as u64).u(piece as u64).u(peak as u64).get());
+    }
+}
+
 /// Outbound: `fill` bytes already enqueued (0 or >= 9), then a message of encoded length `len`,
 /// through enqueue_call (`send` = false; only len >= 8) or send_error (`send` = true).
 fn outbound_case(fill: usize, len: usize, send: bool, sink: &mut Sink<'_>) {
@@ -384,6 +453,13 @@ pub fn run(tier: Tier) -> i32 {
     // outbound
     let fills: Vec<usize> = std::iter::once(0).chain(9..=300).collect();
     let nf = fills.len() as u64;
+    // sustained pipelining: streams of 3x the limit made of small frames, most reads ending mid-frame
+    let psizes: Vec<usize> = vec![9, 55, 100, 255, 256, 257, 300, 1000];
+    let pieces: Vec<usize> = vec![0, 1, 7, 64, 100, 255, 256, 257, 1000, 5000];
+    rep.add(sweep("in/pipelined-small-frames", (psizes.len() * pieces.len()) as u64, &cfg, |i, s| {
+        let size = psizes[i as usize % psizes.len()];
+        inbound_pipelined_case(size, 3 * LIMIT / size + 2, pieces[i as usize / psizes.len()], s)
+    }));
     rep.add(sweep("out/enqueue_call", nf * (max - 7), &cfg, |i, s| outbound_case(fills[(i % nf) as usize], (i / nf) as usize + 8, false, s)));
     rep.add(sweep("out/send_error", nf * (max - 1), &cfg, |i, s| outbound_case(fills[(i % nf) as usize], (i / nf) as usize + 2, true, s)));
     // the production limit, with the library as it ships (main build), in a child process
